@@ -139,6 +139,11 @@ type c10obj struct {
 func (o c10obj) MarshalLogObject(enc zapcore.ObjectEncoder) error {
 	n := o.n
 	for i, kid := range n.kids {
+		if n.kind != c10Inline && n.val%3 == 0 && i == n.val%4 {
+			// user marshalers may open namespaces inside their own object;
+			// whatever they leave open must be closed with the object
+			enc.OpenNamespace(fmt.Sprintf("inner%d", n.val))
+		}
 		if !o.healthy && n.fault == ftMarshalErr && i == n.k {
 			return errors.New(boom(n.id))
 		}
